@@ -43,8 +43,8 @@ structure Job where
 deriving Repr, Inhabited
 
 inductive Ev
-  | exec (j : Nat) (t : Int)
-  | cb (fin : Bool) (cb : Nat) (j : Nat) (st : Status) (nr : Option Int)
+  | exec (j : Nat) (t : Int) (due : Int)
+  | cb (fin : Bool) (cb : Nat) (j : Nat) (st : Status) (nr : Option Int) (now : Int)
   | exc (name : String)
   /-- an exception that would escape a loop callback or `_set_timer`; unreachable by theorem -/
   | fatal (e : Err)
@@ -89,7 +89,7 @@ state visible; a raising callback is reported to the exception handler and the o
 def runCbs (fin : Bool) (j : Nat) : List Nat → St → St
   | [], s => s
   | c :: cs, s =>
-    let s := s.emit (.cb fin c j (s.job j).status (s.job j).nextRun)
+    let s := s.emit (.cb fin c j (s.job j).status (s.job j).nextRun s.now)
     let s := if s.cbFail.contains c then s.emit (.exc "CallbackError") else s
     runCbs fin j cs s
 
@@ -161,7 +161,7 @@ def updateNext (s : St) (j : Nat) : R :=
 /-- `JobBase.execute` inside the `try` of `run_jobs`, including the handling of a failed reschedule -/
 def execute (s : St) (j : Nat) (due : Int) : St :=
   let b := s.job j
-  let s := s.emit (.exec j s.now)
+  let s := s.emit (.exec j s.now due)
   let s := s.setJob j { b with execs := b.execs + 1 }
   let s := if b.execFail.contains b.execs then s.emit (.exc "CallableError") else s
   match updateNext setT s j with
@@ -241,35 +241,54 @@ def OPFUEL : Nat := 400
 
 def St.hasKey (s : St) (k : Nat) : Bool := s.store.any (fun kv => kv.1 = k)
 
-/-- `JobBuilder.once/countdown/at`: argument validation, job construction and `_add_job` -/
-def createJob (s : St) (j : Nat) (key : Option Nat) (spec : JobSpec) (execFail trigFail : List Nat) : R :=
-  -- argument validation (`get_pos_timedelta_secs`, `CountdownJob.set_countdown`)
-  let badArg : Bool := match spec with | .countdown secs => decide (secs ≤ 0) | _ => false
-  if badArg then (s, some .valueError) else
-  let kind : Kind := match spec with
-    | .once t => .once t
-    | .countdown _ => .countdown
-    | .at p => .recurring p
-  let secs := match spec with | .countdown secs => secs | _ => 0
-  let b : Job := { kind := kind, secs := secs, execFail := execFail, trigFail := trigFail }
-  -- job store first: a refused job is never linked
-  let dup : Bool := match key with | some k => s.hasKey k | none => false
-  if dup then (s, some .keyError) else
-  let b := match key with
-    | some k => { b with key := k, inStore := true }
-    | none => b
-  let s := match key with
-    | some k => { s with store := (k, j) :: s.store }
-    | none => s
-  -- link_scheduler
-  let s := s.setJob j { b with linked := true }
+/-- `job_id in self._jobs` for a builder with a store (`key = none`: builder without job store) -/
+def St.dupKey (s : St) : Option Nat → Bool
+  | some k => s.hasKey k
+  | none => false
+
+/-- rejected by `get_pos_timedelta_secs` / `CountdownJob.set_countdown` before a job exists -/
+def JobSpec.bad : JobSpec → Bool
+  | .countdown secs => decide (secs ≤ 0)
+  | _ => false
+
+def JobSpec.kind : JobSpec → Kind
+  | .once t => .once t
+  | .countdown _ => .countdown
+  | .at p => .recurring p
+
+def JobSpec.secs : JobSpec → Int
+  | .countdown secs => secs
+  | _ => 0
+
+/-- the freshly constructed job object, already marked as linked (`self._scheduler = scheduler`) -/
+def newJob (key : Option Nat) (spec : JobSpec) (execFail trigFail : List Nat) : Job :=
+  { kind := spec.kind, secs := spec.secs, execFail := execFail, trigFail := trigFail, linked := true,
+    key := key.getD 0, inStore := key.isSome }
+
+/-- `InMemoryStore.add_job` -/
+def storeAdd (s : St) (key : Option Nat) (j : Nat) : St :=
+  match key with
+  | some k => { s with store := (k, j) :: s.store }
+  | none => s
+
+/-- `link_scheduler` (update_first, add_job) inside the try/except of `JobBuilder._add_job` -/
+def linkJob (s : St) (j : Nat) : R :=
   let setT := setTimer OPFUEL
-  let first : R := match kind with
+  let first : R := match (s.job j).kind with
     | .once t => setNextRun s j (some t)
     | _ => updateNext setT s j
   match first with
   | (s', none) => (addJob setT s' j, none)
   | (s', some e) => ((jobFinish setT s' j).1, some e)
+
+/-- `JobBuilder.once/countdown/at`: argument validation, job construction and `_add_job` -/
+def createJob (s : St) (j : Nat) (key : Option Nat) (spec : JobSpec) (execFail trigFail : List Nat) : R :=
+  -- the handle `j` stands for the new Python object: it must not be in use
+  if (s.job j).status ≠ .created then (s, some .valueError) else
+  if spec.bad then (s, some .valueError) else
+  -- job store first: a refused job is never linked
+  if s.dupKey key then (s, some .keyError) else
+  linkJob ((storeAdd s key j).setJob j (newJob key spec execFail trigFail)) j
 
 /-- fire the loop timer if it is due -/
 def fireDue (s : St) : St :=
